@@ -24,6 +24,7 @@ UNITS = {
     "u24_changeparse": {"verus": "specs/u24_changeparse.vt.rs"},
     "u25_syncstate": {"verus": "specs/u25_syncstate.vt.rs"},
     "u26_skipper": {"verus": "specs/u26_skipper.vt.rs"},
+    "u27_hydrate_list": {"verus": "specs/u27_hydrate_list.vt.rs"},
 }
 CHUNK = "rust/automerge/src/storage/chunk.rs"
 EXID = "rust/automerge/src/exid.rs"
@@ -242,13 +243,14 @@ PROPERTIES.update({
     "C37": {
         "level": "proof",
         "verus": [("u04_ids", ["exid_to_opid", "op_cursor_to_opid", "new", "get_actor_safe"]), ("u16_autocommit", ["ensure_transaction_open", "commit_with", "empty_change", "ensure_transaction_closed"]), ("u19_import", "*"),
-                  ("u21_patchlog_tx", "*"), ("u26_skipper", "*")],
+                  ("u21_patchlog_tx", "*"), ("u26_skipper", "*"), ("u27_hydrate_list", "*")],
         "kani": ["u04_opid_new", "u12_normalize_range", "u08_width_single_scalar", "u04_changehash_try_from_slice"],
-        "not_under_contract": ["every other public entry point", "the ~100 internal OpId::new call sites", "hydrate::Value::apply_patches"],
+        "not_under_contract": ["every other public entry point", "the ~100 internal OpId::new call sites", "hydrate::Value::apply (path descent), hydrate::Map::apply"],
         "assumptions": ["a document has at most u32::MAX actors"],
         "explanation": "For the id/cursor argument conversions and list-range normalisation only: normalize_range is proved (Kani, complete over all pairs of bounds) never to panic and to return exactly "
                        "the caller's range; OpId::new's two unwrap()s become its precondition (verified on its real body), and Verus proves every call from exid_to_opid and "
                        "op_cursor_to_opid establishes it for EVERY ExId / cursor value a caller can construct or decode. "
+                       "U27: hydrate::List::apply and hydrate::Text::apply (behind the public hydrate::Value::apply_patches) return for ANY patch action -- every index handed to the sequence tree / text value is in range, no arm panics (D20, D21 fail here before their repair). "
                        "U26: the visibility skipper behind map_range / list_range / keys / values (BoolColumnSkipper::next, shift_next) never overflows or underflows for ANY range -- reversed ones included -- and any runs the column yields. "
                        "U19: Automerge::import_obj is total on every &str (no unwrap on hex / integer conversion, string slices on char boundaries, table index in range; the str primitives are trusted wrappers). "
                        "U21: the real PatchLog::begin_transaction's assert! (no speculative actor pending) is its precondition and the real finish_transaction always clears it -- the two contracts U16 assumes. "
